@@ -57,7 +57,7 @@ def run_shard(args) -> int:
     drv = driver(args.prop)
     seed = core.verif_seed()
     n = args.runs
-    indices = [i for i in range(n) if i % args.nshards == args.shard]
+    indices = [i for i in range(args.start, n) if i % args.nshards == args.shard]
     tmp = tempfile.mkdtemp(prefix="verif-shard-")
     try:
         hs = os.environ.get("PYTHONHASHSEED", "")
@@ -93,6 +93,7 @@ def main() -> int:
     ap.add_argument("--tier", default=os.environ.get("VERIF_TIER", "quick"), choices=["quick", "thorough"])
     ap.add_argument("--replay")
     ap.add_argument("--runs", type=int)
+    ap.add_argument("--start", type=int, default=0, help="first run index (debugging: --start 167 --runs 168)")
     ap.add_argument("--workers", type=int, default=int(os.environ.get("VERIF_WORKERS", "0")) or (os.cpu_count() or 4))
     ap.add_argument("--wall-cap", type=float)
     ap.add_argument("--no-minimize", action="store_true")
@@ -127,7 +128,8 @@ def main() -> int:
             env["VERIF_SEED"] = str(seed)
             out = os.path.join(tmp, f"shard{k}.json")
             cmd = [sys.executable, os.path.abspath(__file__), prop, "--tier", args.tier, "--shard", str(k),
-                   "--nshards", str(len(hss)), "--runs", str(n), "--workers", str(per), "--out", out,
+                   "--nshards", str(len(hss)), "--runs", str(n), "--start", str(args.start), "--workers", str(per),
+                   "--out", out,
                    "--wall-cap", str(wall_cap), "--prep-dir", os.path.join(tmp, f"prep{k}")]
             procs.append((subprocess.Popen(cmd, env=env), out, hs))
         for p, out, hs in procs:
